@@ -1,8 +1,18 @@
 """Scripted step command: applies file operations to the current directory.
-argv: ops like create:path:text  modify:path:text  delete:path  rename:a:b  stamp:path  mkdir:path  cd:dir  echo:text  progress:text  exit:n"""
+argv: ops like create:path:text  modify:path:text  delete:path  rename:a:b  stamp:path  mkdir:path  cd:dir  echo:text  progress:text  accent:text  exit:n"""
 import os
 import sys
 
+def _log_failure(exc_type, exc, tb):
+    import traceback
+    log = os.environ.get("VERIF_STEPPER_LOG")
+    if log:
+        with open(log, "a", encoding="utf8") as f_:
+            f_.write("argv: %r\ncwd: %s\n%s\n" % (sys.argv[1:], os.getcwd(), "".join(traceback.format_exception(exc_type, exc, tb))))
+    sys.__excepthook__(exc_type, exc, tb)
+
+
+sys.excepthook = _log_failure
 code = 0
 for op in sys.argv[1:]:
     kind, _, rest = op.partition(":")
@@ -39,6 +49,17 @@ for op in sys.argv[1:]:
         # a progress line redrawn with carriage returns, the last one not followed by a line feed
         sys.stdout.write("%s  50%%\r%s 100%%\r" % (rest, rest))
         sys.stderr.write("%s...\r" % rest)
+    elif kind == "accent":
+        # both streams at once, each interrupted in the middle of a two-byte character: "café <text>" on standard output,
+        # "wärme <text>" on standard error
+        import time
+        o, e = ("caf\u00e9 %s\n" % rest).encode("utf8"), ("w\u00e4rme %s\n" % rest).encode("utf8")
+        sys.stdout.flush(); sys.stderr.flush()
+        sys.stdout.buffer.write(o[:4]); sys.stdout.buffer.flush()
+        sys.stderr.buffer.write(e[:2]); sys.stderr.buffer.flush()
+        time.sleep(0.2)
+        sys.stdout.buffer.write(o[4:]); sys.stdout.buffer.flush()
+        sys.stderr.buffer.write(e[2:]); sys.stderr.buffer.flush()
     elif kind == "exit":
         code = int(rest)
 sys.exit(code)
